@@ -563,6 +563,26 @@ class Project:
         return self._callgraph
 
 
+def analysis_functions(prj: "Project", roots) -> list:
+    """Functions reachable from `roots`, as *views* (newly extracted helpers inlined into their callers);
+    a helper that could not be inlined still appears, because its call is still there."""
+    seen, out, todo = set(), [], [prj.func(r) for r in roots]
+    while todo:
+        f = todo.pop()
+        if f.qual in seen:
+            continue
+        seen.add(f.qual)
+        out.append(f)
+        for sub in f.nested.values():
+            todo.append(sub)
+        for c in f.calls():
+            tg, kind = prj.resolve_call(f, c)
+            for t in tg:
+                if t.qual not in seen:
+                    todo.append(prj.func(t.qual))
+    return sorted(out, key=lambda f: f.qual)
+
+
 BUILTIN_NAMES = {
     "len", "sum", "min", "max", "sorted", "set", "list", "dict", "tuple", "range", "enumerate", "str", "int",
     "isinstance", "open", "print", "next", "id", "hash", "super", "zip", "any", "all", "reversed", "bool",
